@@ -30,6 +30,12 @@ def menu(tier):
                                                            nonorthogonal_spacing_method="poloidal_orthogonal_combined"))),
         ("circular", dict(family="circular", options=dict(nx=4, ny=8), label="circular nx=4 ny=8")),
     ]
+    # members built with worker processes: whatever the workers hold must belong to the
+    # equilibrium being meshed, not to an earlier one of the same interpreter
+    m += [
+        ("lsn-nonorth-2proc", mk("lsn", False, opt=dict(number_of_processors=2))),
+        ("usn-orth-2proc", mk("usn", True, opt=dict(number_of_processors=2))),
+    ]
     if tier == "thorough":
         m += [
             ("cdn-nonorth", mk("cdn", False)),
@@ -91,11 +97,20 @@ def run(ctx):
     depth = 2 if ctx.tier == "quick" else 3
     singles = [m for _, m in M]
     seqs = []
+    par = [i for i, (n_, _) in enumerate(M) if n_.endswith("-2proc")]
+    ser = [i for i in range(len(M)) if i not in par]
     for L in range(1, depth + 1):
-        for combo in itertools.product(range(len(M)), repeat=L):
+        for combo in itertools.product(ser, repeat=L):
             if L == 3 and combo[0] == combo[1] == combo[2]:
                 continue
             seqs.append(combo)
+    # the multi-process members: alone, and every ordered pair among them and after the first
+    # serial member (all histories of depth <= 2 over {serial lsn, 2proc lsn, 2proc usn} ending in
+    # a 2proc build)
+    for i in par:
+        seqs.append((i,))
+        for j in par + ser[:1]:
+            seqs.append((j, i))
     seq_members = [dict(family="buildseq", seq=[M[i][1] for i in combo],
                         label="builds " + " -> ".join(M[i][0] for i in combo), watchdog_s=1500) for combo in seqs]
     # same array objects handed to two consecutive builds
